@@ -198,6 +198,16 @@ case("F51 several groupers, a label combination that never occurs", lambda: grou
 case("F52 integer fill outside the range of a preserved int8 dtype (chunked)", lambda: groupby_reduce(da.from_array(np.arange(6, dtype=np.int8), chunks=2), np.array([1, 1, 2, 2, 5, 5]), func="max", expected_groups=np.array([0, 1, 2, 3]), fill_value=1000, method="map-reduce")[0].compute().tolist(), lambda r: r == [1000, 1, 3, 1000])
 case("F52 the same, in memory", lambda: groupby_reduce(np.arange(6, dtype=np.int8), np.array([1, 1, 2, 2, 5, 5]), func="max", expected_groups=np.array([0, 1, 2, 3]), fill_value=1000)[0].tolist(), lambda r: r == [1000, 1, 3, 1000])
 
+# F53
+def f53():
+    kw = {"q": 0.5}
+    r = groupby_reduce(da.from_array(np.arange(12.0), chunks=6), np.repeat([0, 1], 6), func="quantile", finalize_kwargs=kw)[0]
+    kw["q"] = 0.0
+    return r.compute().tolist()
+
+
+case("F53 finalize_kwargs edited after the lazy result was built", f53, lambda r: r == [2.5, 8.5])
+
 bad = 0
 for name, verdict in results:
     print(f"{name:55s} {verdict}")
